@@ -326,6 +326,32 @@ func ToKeyed(v any, orders uint, indexed bool) any {
 	return conv(v)
 }
 
+// EmbX, EmbMid and EmbTop are the embedded-struct representation of an object
+// with the members a and x: x is promoted through two levels of embedding.
+type EmbX struct{ X any }
+type EmbMid struct {
+	EmbX
+}
+type EmbTop struct {
+	EmbMid
+	A any
+}
+
+// ToEmbedded turns an object that has exactly the members a and x into a
+// *EmbTop (member values stay as they are); ok=false for anything else.
+func ToEmbedded(v any) (any, bool) {
+	m, isMap := v.(map[string]any)
+	if !isMap || len(m) != 2 {
+		return nil, false
+	}
+	a, hasA := m["a"]
+	x, hasX := m["x"]
+	if !hasA || !hasX {
+		return nil, false
+	}
+	return &EmbTop{EmbMid: EmbMid{EmbX: EmbX{X: x}}, A: a}, true
+}
+
 // Reprs lists the representations of the tree that differ from the simple
 // form (which comes first).
 func Reprs(v any) []Repr {
@@ -336,6 +362,11 @@ func Reprs(v any) []Repr {
 	}
 	if obj && IdentKeys(v) {
 		out = append(out, Repr{"struct", ToStructs(v, false)}, Repr{"pstruct", ToStructs(v, true)})
+	}
+	if e, ok := ToEmbedded(v); ok {
+		// promoted fields are looked up by name: only paths of child, index and
+		// union fragments are evaluated on this form (see C11)
+		out = append(out, Repr{"embstruct", e})
 	}
 	if obj {
 		k := CountMultiKeyMaps(v)
@@ -470,6 +501,15 @@ func Canon(v any) any {
 		rt := rv.Type()
 		for i := 0; i < rv.NumField(); i++ {
 			name := rt.Field(i).Name
+			if rt.Field(i).Anonymous {
+				// an embedded struct: its fields are promoted (as in encoding/json)
+				if m, ok := Canon(rv.Field(i).Interface()).(map[string]any); ok {
+					for k, e := range m {
+						out[k] = e
+					}
+					continue
+				}
+			}
 			out[strings.ToLower(name[:1])+name[1:]] = Canon(rv.Field(i).Interface())
 		}
 		return out
